@@ -126,17 +126,24 @@ def oracle(c):
 
 def gen(rng, tier):
     n = 150 if tier == "quick" else 1500
+    n_wide = 12 if tier == "quick" else 150
     cases = []
-    for _ in range(n):
-        nt = rng.randint(2, 5)
+    for it in range(n + n_wide):
+        wide = it >= n
+        # wide: 22-44 terminals expected in ONE state (sorting more than 20 elements; equal keys must keep grammar order):
+        # distinct keyword strings as filler + overlapping strings/regexes, the same regex under several names
+        nt = rng.randint(22, 44) if wide else rng.randint(2, 5)
         terms = []
         used = set()
         for i in range(nt):
-            if rng.random() < 0.5:
+            r = rng.random()
+            if wide and r < 0.45:
+                k, p = "S", "k" + "abix"[i % 4] * (1 + i % 3) + str(i)
+            elif r < (0.6 if wide else 0.5):
                 k, p = "S", rng.choice(STRINGS)
             else:
                 k, p = "R", rng.choice(REGEXES)
-            if (k, p) in used:
+            if (k, p) in used and not (wide and k == "R"):
                 continue
             used.add((k, p))
             prio = rng.choice([None, None, 5, 15, 15, 20])
@@ -183,7 +190,7 @@ def run(rep, tier, seed):
 
 
 def check(rep, lr, glr, proofs_ok):
-    rep.cov["rule"] = ("grammar `S: S X | X; X: T1|..|Tn` over 2-5 overlapping string/regex terminals with priorities in 1-3 groups, so "
+    rep.cov["rule"] = ("grammar `S: S X | X; X: T1|..|Tn` over 2-5 (family wide: 22-44, same regex under several names) overlapping string/regex terminals with priorities in 1-3 groups, so "
                        "that every terminal is expected in every state; all combinations of most_specific x longest_match (x "
                        "grammar_order for GLR) x {LR, GLR}; inputs: all strings up to length 3 over {a,b,i,x} + concatenations of "
                        "recognizer-shaped pieces; LR: the token sequence of the tree = the sequence the documented rule selects; GLR: "
